@@ -65,7 +65,14 @@ func writeGroupFile(name string, desc map[string]any) {
 	}
 	fn := filepath.Join(group.Directory, filepath.FromSlash(name)+".json")
 	os.MkdirAll(filepath.Dir(fn), 0o755)
-	if err := os.WriteFile(fn, b, 0o600); err != nil {
+	// replace atomically: a concurrent reload must never see a partial file
+	f, err := os.CreateTemp(filepath.Dir(fn), "*.tmp")
+	if err != nil {
+		panic("VERIF-HARNESS-ERROR: " + err.Error())
+	}
+	f.Write(b)
+	f.Close()
+	if err := os.Rename(f.Name(), fn); err != nil {
 		panic("VERIF-HARNESS-ERROR: " + err.Error())
 	}
 }
